@@ -13,6 +13,7 @@ import (
 	specs "tags.cncf.io/container-device-interface/specs-go"
 	"verif/sim/memfs"
 	"verif/sim/sched"
+	"verif/sim/simos"
 	"verif/sim/simrt"
 	"verifharness/core"
 	"verifharness/gen"
@@ -29,10 +30,11 @@ const (
 	c12D0 = "/etc/cdi"
 	c12D1 = "/run/cdi"
 	c12D2 = "/opt/vendor/cdi"
+	c12D3 = "/var/run/cdi" // lowest priority, never holds a file, may be missing and (re)appear
 	c12F  = "/run/cdi/vendor.com-gpu.yaml"
 )
 
-var c12Cfgs = [][]string{{c12D0, c12D1}, {c12D1}, {c12D2, c12D1}}
+var c12Cfgs = [][]string{{c12D3, c12D0, c12D1}, {c12D3, c12D1}, {c12D3, c12D2, c12D1}}
 
 const (
 	fAbsent = iota
@@ -156,7 +158,7 @@ var c12Model = porcupine.Model{
 			fmt.Sscan(in.Arg, &s.Cfg)
 			s.ICfg, s.IDisk = s.Cfg, s.Disk
 			return true, s
-		case "WriteSpec", "RemoveSpec", "GetErrors", "GetSpecErrors", "GetSpecDirErrors", "ListClasses", "GetVendorSpecs":
+		case "WriteSpec", "RemoveSpec", "GetErrors", "GetSpecErrors", "GetSpecDirErrors", "ListClasses", "GetVendorSpecs", "ToggleDir":
 			return true, s
 		}
 		return out == c12Expect(in.Kind, in.Arg, s), s
@@ -204,6 +206,14 @@ func c12(r *core.Run) {
 	for _, d := range []string{c12D0, c12D1, c12D2} {
 		e.admin.MkdirAll(d, 0o755)
 	}
+	e.admin.MkdirAll("/var/run", 0o755)
+	if src.Bool(1, 2) {
+		e.admin.MkdirAll(c12D3, 0o755)
+	}
+	// sometimes the cache is set up while the process has no free descriptors:
+	// the watcher cannot be created and every query refreshes by itself
+	noWatcher := auto && src.Bool(1, 4)
+	r.Knob("watcher_creation_fails", noWatcher)
 	e.admin.WriteFile(c12D0+"/static.json", gen.Encode(specS, true), 0o644)
 	e.admin.WriteFile(c12D2+"/static.json", gen.Encode(specT, true), 0o644)
 	initCfg := src.Intn(len(c12Cfgs))
@@ -213,6 +223,9 @@ func c12(r *core.Run) {
 		e.admin.WriteFile(c12F, gen.Encode(specA, false), 0o644)
 	case fB:
 		e.admin.WriteFile(c12F, gen.Encode(specB, false), 0o644)
+	}
+	if noWatcher {
+		e.app.NoFile = e.app.NumFDs()
 	}
 	e.do("create", func() {
 		opts := []cdi.Option{cdi.WithSpecDirs(c12Cfgs[initCfg]...), cdi.WithAutoRefresh(auto)}
@@ -224,7 +237,8 @@ func c12(r *core.Run) {
 			e.cache = c
 		}
 	})
-	r.Notef("cache: dirs %v auto=%v default=%v; F initially %d", c12Cfgs[initCfg], auto, useDefault, initDisk)
+	e.app.NoFile = 1024
+	r.Notef("cache: dirs %v auto=%v default=%v watcher=%v; F initially %d", c12Cfgs[initCfg], auto, useDefault, !noWatcher, initDisk)
 
 	// ---- state tracking by an omniscient observer ----
 	stamp := func(phase int64) int64 { return int64(e.w.Step)*3 + phase }
@@ -301,7 +315,7 @@ func c12(r *core.Run) {
 		for i := 0; i < nops; i++ {
 			src.Begin("op")
 			var p planned
-			switch src.Pick(3, 3, 3, 2, 2, 1, 1, 1, 1, 1, 1, 2, 1, 3, 2) {
+			switch src.Pick(3, 3, 3, 2, 2, 1, 1, 1, 1, 1, 1, 2, 1, 3, 2, 1) {
 			case 0:
 				p = planned{"ListDevices", "", func() string { return strings.Join(e.cache.ListDevices(), ",") }}
 			case 1:
@@ -405,6 +419,14 @@ func c12(r *core.Run) {
 				p = planned{"WriteSpec", []string{"A", "B"}[k], func() string {
 					if err := e.cache.WriteSpec(wspec[k], "vendor.com-gpu"); err != nil {
 						return "error:" + err.Error()
+					}
+					return ""
+				}}
+			case 15:
+				p = planned{"ToggleDir", c12D3, func() string {
+					// a configured (empty, lowest priority) directory appears or disappears
+					if err := simos.Mkdir(c12D3, 0o755); err != nil {
+						_ = simos.Remove(c12D3)
 					}
 					return ""
 				}}
